@@ -511,7 +511,8 @@ structure ArgsOK (G : GCtx) (pi : PInfo) (sp dep : Nat) (hi : Nat → Word) (f :
     | .ok vs s =>
       (match X.callUser f G.xc pj.p vs s with
        | .ok res s' => ∃ a' b' mem', Steps G.env (cfg i a b mem) st.io (cfg (i + (lowerCode G.cg code).length) a' b' mem') s'.io ∧
-           Rep (KOf G pi sp dep hi) s' mem' ∧ (pj.p.isFunc = true → ∀ w, res = some w → a' = w)
+           Rep (KOf G pi sp dep hi) s' mem' ∧ (pj.p.isFunc = true → ∀ w, res = some w → a' = w) ∧
+           FrmC (KOf G pi sp dep hi) gs.offset (G.S pi) mem mem'
        | .exit cd s' => ∃ c, Steps G.env (cfg i a b mem) st.io c s'.io ∧ Exit G.env c s'.io cd
        | .undef _ => True)
     | .exit cd s => ∃ c, Steps G.env (cfg i a b mem) st.io c s.io ∧ Exit G.env c s.io cd
@@ -534,7 +535,7 @@ theorem argsOK_pure (f : Nat) (args : List X.Expr) (hp : ∀ e ∈ args, pureE e
     cases hx : X.callUser f G.xc pj.p vs s with
     | undef w => trivial
     | exit cd s' => rw [hx] at h; exact h
-    | ok res s' => rw [hx] at h; obtain ⟨a', b', mem', h1, h2, h3, _⟩ := h; exact ⟨a', b', mem', h1, h2, h3⟩
+    | ok res s' => rw [hx] at h; exact h
 
 theorem argsOK_pp (pk : PureOk G.xc) (f : Nat) (hleaf : ∀ k, k ≤ f → CallLeaf (KOf G pi sp dep hi) G.pnames k)
     (args : List X.Expr) (hp : ∀ e ∈ args, ppE G.pnames G.xc.impure e = true) : ArgsOK G pi sp dep hi f args := by
@@ -551,7 +552,7 @@ theorem argsOK_pp (pk : PureOk G.xc) (f : Nat) (hleaf : ∀ k, k ≤ f → CallL
     cases hx : X.callUser f G.xc pj.p vs s with
     | undef w => trivial
     | exit cd s' => rw [hx] at h; exact h
-    | ok res s' => rw [hx] at h; obtain ⟨a', b', mem', h1, h2, h3, _⟩ := h; exact ⟨a', b', mem', h1, h2, h3⟩
+    | ok res s' => rw [hx] at h; exact h
 
 end
 
